@@ -318,9 +318,9 @@ Fixpoint section_loop (fuel : nat) (o : options) (f : format) (st : dstate) (s :
   | S k =>
       if seof s then mret st
       else
-        let! x := mlift (parse_patch_header (empty_patch f) (strip_size o) s) in
-        let '(should, p, s1) := x in
-        match pfmt p with
+        let! x := mlift (parse_patch_header_full (empty_patch f) (strip_size o) s) in
+        let '(should, p, s1, found) := x in
+        match (if negb found && should then FUnknown else pfmt p) with
         | FUnknown => if first then mthrow EInvalidArgument else mret st
         | _ =>
             match poper p with
